@@ -227,3 +227,92 @@ Proof.
        end.
   all: eexists; eexists; eexists; split; eauto.
 Qed.
+
+(* ---- order on AppClock: a tick pops (time, seq)-minima, collects them in pop order and wakes them
+        in that order ------------------------------------------------------------------------------- *)
+Lemma app_sorted_run : forall v evs s, arun (ainit v) evs = Some s -> sorted ikey (a_q s).
+Proof.
+  intros v evs s HR.
+  destruct (arun_invariant jinv jinv_step evs (ainit v) s (jinv_init v) HR) as [S _]. exact S.
+Qed.
+
+Lemma app_pop_minimum : forall v evs s t k s',
+  arun (ainit v) evs = Some s -> astep s (APop t k) = Some s' ->
+  exists now acc h, a_q s = h :: a_q s' /\ itask h = k /\ t == itime h /\ itime h <= now /\
+    a_pc s' = ACollect now (acc ++ [h]) /\
+    forall x, In x (a_q s') -> ~ klt (ikey x) (ikey h).
+Proof.
+  intros v evs s t k s' HR HS.
+  pose proof (app_sorted_run v evs s HR) as S.
+  destruct (app_pop_due s t k s' HS) as [now [acc [h [r [_ [Hq [Hq' [Hk [Ht [Hle Hpc]]]]]]]]]].
+  exists now, acc, h. rewrite Hq'. repeat split; try assumption.
+  intros x Hx. rewrite Hq in S. apply (sorted_head_le _ ikey h r x S Hx).
+Qed.
+
+(* when the collecting ends the first collected item is woken, the others wait in collection order;
+   after a wake-up that does not re-schedule the next collected item is woken *)
+Lemma app_wake_order : forall s k r s',
+  astep s (AAwakeEnd k r) = Some s' ->
+  exists now x todo, a_norm (a_q s) (a_pc s) = AAwk now x todo /\ itask x = k /\
+    match r with
+    | RDelta d => a_pc s' = AReaddT now d k todo
+    | _ => a_pc s' = match todo with [] => ATickDone now | y :: rest => AAwk now y rest end
+    end.
+Proof.
+  intros s k r s' HS.
+  destruct s as [v q n p rn nt ow fl la]. simpl in *.
+  destruct p; simpl in HS; try discriminate HS; astep_cases HS; simpl.
+  all: repeat match goal with E : Z.eqb _ _ = true |- _ => apply Z.eqb_eq in E; subst end.
+  all: eexists; eexists; eexists; split; [eauto |]; split; [reflexivity |]; reflexivity.
+Qed.
+
+Lemma app_collect_to_wake : forall l now x todo,
+  a_norm l (ACollect now (x :: todo)) = AAwk now x todo \/
+  a_norm l (ACollect now (x :: todo)) = ACollect now (x :: todo).
+Proof.
+  intros l now x todo. unfold a_norm. destruct l as [| h r]; simpl; [left; reflexivity |].
+  destruct (Qle_bool (itime h) now); [right | left]; reflexivity.
+Qed.
+
+(* ---- clear / stop on AppClock ----------------------------------------------------------------------- *)
+Lemma app_clear_pops_head : forall s t k s', astep s (AClearPop t k) = Some s' ->
+  exists h, a_q s = h :: a_q s' /\ itask h = k /\ t == itime h.
+Proof.
+  intros s t k s' HS.
+  destruct s as [v q n p rn nt ow fl la]. simpl in *.
+  destruct p, q; simpl in HS; try discriminate HS; astep_cases HS; simpl.
+  all: repeat match goal with E : _ && _ = true |- _ => apply andb_true_iff in E; destruct E end.
+  all: repeat match goal with
+       | E : Qeq_bool _ _ = true |- _ => apply Qeq_bool_true in E
+       | E : Z.eqb _ _ = true |- _ => apply Z.eqb_eq in E; subst
+       end.
+  all: eexists; repeat split; eauto.
+Qed.
+
+Lemma app_stop_sets_flag : forall s s', astep s AStop = Some s' -> a_run s' = false.
+Proof.
+  intros s s' HS. destruct s as [v q n p rn nt ow fl la]. simpl in *.
+  destruct p; simpl in HS; try discriminate HS; astep_cases HS; reflexivity.
+Qed.
+
+Lemma app_run_stays_false : forall s e s', a_run s = false -> astep s e = Some s' -> a_run s' = false.
+Proof.
+  intros s e s' HI HS. destruct s as [v q n p rn nt ow fl la]. simpl in *. subst rn.
+  destruct e, p; simpl in HS; try discriminate HS; astep_cases HS; reflexivity.
+Qed.
+
+(* once stopped the thread never starts a wait again: at its next pass through the second block it returns *)
+Lemma app_stopped_no_wait : forall s to, a_run s = false -> astep s (AWaitBegin to) = None.
+Proof.
+  intros s to HI. destruct s as [v q n p rn nt ow fl la]. simpl in *. subst rn.
+  unfold astep. simpl. destruct p; simpl; try reflexivity.
+  all: try (destruct (match q with [] => false | h :: _ => Qle_bool (itime h) now end); try reflexivity;
+            destruct acc; reflexivity).
+Qed.
+
+Lemma app_stopped_exits : forall s s', a_run s = false -> astep s ACondExit = Some s' ->
+  a_pc s' = AExited \/ a_pc s' = APre.
+Proof.
+  intros s s' HI HS. destruct s as [v q n p rn nt ow fl la]. simpl in *. subst rn.
+  destruct p; simpl in HS; try discriminate HS; astep_cases HS; simpl; auto.
+Qed.
